@@ -119,7 +119,7 @@ class VersionedDataHandler:
             perc_expected_vote_corr = np.divide(
                 results_turnout,
                 results_turnout[-1],
-                out=np.zeros_like(results_turnout),
+                out=np.zeros_like(results_turnout, dtype=float),
                 where=results_turnout[-1] != 0,
                 casting="unsafe",
             )
